@@ -119,6 +119,10 @@ def gen_case(rng, tier, idx, shard, nshards):
             if nm == "f" and nm not in limited and nm not in fixed:
                 limited[nm] = [0.02, 0.98]
     start = {nm: float(np.round(d * rng.uniform(0.93, 1.07), 5)) for nm, d in zip(m.pnames, m.defaults) if nm not in fixed}
+    if dea == "iterative" and spec["type"] in ("xy", "indexed") and spec["model"]["family"] in ("exponential", "powerlaw", "logistic") and rng.random() < 0.6:
+        # monotone families have one basin: start further away, so that the covariance of the first pass (evaluated at the start values)
+        # is visibly not the covariance at the optimum and the iteration has to do real work
+        start = {nm: float(np.round(d * rng.uniform(0.75, 1.3), 5)) for nm, d in zip(m.pnames, m.defaults) if nm not in fixed}
     for nm, (lo, hi) in limited.items():
         if nm in start:
             start[nm] = float(np.clip(start[nm], lo + 1e-3 * (hi - lo), hi - 1e-3 * (hi - lo)))
@@ -363,6 +367,10 @@ def run_case(ctx, case):
             # one backend on a limit, the other not: compare costs instead (the optimum may sit within tolerance of the limit)
             ca = make_objective(results["iminuit"], names, fixed, limited)(pa)
             cb = make_objective(results["scipy"], names, fixed, limited)(pb)
+            s_any = np.where(np.isfinite(sig_by["scipy"]) & (sig_by["scipy"] > 0), sig_by["scipy"], np.where(np.isfinite(sig_by["iminuit"]) & (sig_by["iminuit"] > 0), sig_by["iminuit"], 0.0))
+            if abs(ca - cb) > 1e-2 and not premature.get("scipy") and not premature.get("iminuit") and not stuck.get("iminuit") and two_attractors(case, names, pa, pb, s_any):
+                ctx.discard("backends-in-different-local-minima-both-stable")
+                return nontrivial
             ctx.check(
                 "backends-agree",
                 abs(ca - cb) <= 1e-2,
